@@ -3,7 +3,9 @@
 K1  R*T^2 * d ln Psat/dT == 1000 * Hvap for every vapour-pressure equation arm
 K2  pressure and heat dispatch on the same type tests and both raise otherwise
 K3  cooling heat is the integral of the specific heat (4 polynomial identities)
+K4  no augmented assignment to a (not yet rebound) parameter: for array arguments that is an in-place update of the caller's data
 """
+import ast
 from .. import poly
 from ..poly import Rat, mk_log, diff, subst
 from ..evaluator import analyse, Config
@@ -112,6 +114,25 @@ def run(ck):
           all(o.kind == "raise" for o in outs_p if nomatch(o)), "the path on which no equation type matches must raise")
     ck.ob("K2", fh.qualname, "unknown equation type raises", fh.loc(), any(nomatch(o) for o in outs_h) and
           all(o.kind == "raise" for o in outs_h if nomatch(o)), "the path on which no equation type matches must raise")
+    # K4: the four functions work elementwise on numpy arrays of temperatures as well as on numbers; for an array an augmented
+    # assignment to the parameter (`temperature /= ...`) is an IN-PLACE update of the caller's array: the heat returned and the pressure
+    # evaluated afterwards from the same array then belong to different temperatures. A plain rebinding before it makes it local.
+    for f in (fp, fh, fc, fq):
+        params = set(f.params[1:])
+        rebound = set()
+        hits = []
+        for st in sorted((n for n in ast.walk(f.node) if isinstance(n, (ast.Assign, ast.AnnAssign, ast.AugAssign))), key=lambda n: (n.lineno, n.col_offset)):
+            if isinstance(st, ast.AugAssign):
+                if isinstance(st.target, ast.Name) and st.target.id in params and st.target.id not in rebound:
+                    hits.append("%s: %s" % (f.loc(st), ast.unparse(st)))
+            else:
+                for t in (st.targets if isinstance(st, ast.Assign) else [st.target]):
+                    for n in ast.walk(t):
+                        if isinstance(n, ast.Name):
+                            rebound.add(n.id)
+        ck.ob("K4", f.qualname, "the temperature arguments are not updated in place (no augmented assignment to a parameter)", f.loc(), not hits,
+              "for an array of temperatures this overwrites the caller's array, so the heat and the pressure computed from it refer to "
+              "different temperatures: " + "; ".join(hits))
     # K3
     oc = analyse(repo, fc, cfg)
     oq = analyse(repo, fq, cfg)
